@@ -399,6 +399,53 @@ func init() {
 				}
 			}
 			writers := map[string]bool{"writeExpr": true, "writeQuote": true, "writeCompactExpr": true, "writeSExpr": true, "writeListInner": true, "writeCompactList": true}
+			// dischargers: writeLeadingComments itself, and every printer method that — for one of its
+			// node parameters — writes that node's leading comments or crosses an edge entailing it has
+			// none on EVERY path to its exit (`breakLineBefore(child, indent)`): calling one on a child
+			// discharges the obligation exactly as the statements written in its place did
+			disch := map[*types.Func]int{wlc: 0}
+			for _, u := range units {
+				sig := u.Obj.Type().(*types.Signature)
+				if sig.Recv() == nil || !strings.HasSuffix(canonTypes(sig.Recv().Type().String()), "formatter.printer") || originOf(u.Obj) == wlc || writers[shortName(u.Obj)] {
+					continue
+				}
+				info := u.Pkg.TypesInfo
+				for k, pp := range paramObjs(u) {
+					if !strings.HasSuffix(pp.Type().String(), "lisp.LVal") {
+						continue
+					}
+					lc := *base
+					lc.info, lc.body, lc.predNoLC, lc.parentFn, lc.nodeP = info, u.Decl.Body, predNoLC, parentFn, nil
+					child := fmt.Sprintf("obj:%s@%d", pp.Name(), pp.Pos())
+					fc := c.cfgOf(u, nil)
+					cut := fc.edgesEntailing(lc.classifier(child), noLCGoal)
+					blocked := map[*cfg.Block]bool{}
+					for _, ob := range fc.G.Blocks {
+						for _, on := range ob.Nodes {
+							for _, oc := range callsIn(on, false) {
+								if originOf(Callee(info, oc)) == wlc && len(oc.Args) >= 1 && lc.canon(oc.Args[0]) == child {
+									blocked[ob] = true
+								}
+							}
+						}
+					}
+					if len(blocked) == 0 {
+						continue // a function that never writes them is not a discharger, whatever it tests
+					}
+					all := true
+					for _, xb := range fc.G.Blocks {
+						if !fc.Live(xb) || len(xb.Succs) != 0 || blocked[xb] {
+							continue
+						}
+						if fc.reachableAvoidingBlocks(xb, cut, blocked) {
+							all = false
+						}
+					}
+					if all {
+						disch[originOf(u.Obj)] = k
+					}
+				}
+			}
 			var obs []Obligation
 			var sums []string
 			for f := range predNoLC {
@@ -444,7 +491,7 @@ func init() {
 								continue
 							}
 							child := lc.canon(arg)
-							construct := ord.next(fn.Name() + "(" + types.ExprString(arg) + ")")
+							construct := ord.next(shortName(fn) + "(" + elemShape(info, u.Decl.Body, arg) + ")")
 							cls := lc.classifier(child)
 							cut := fc.edgesEntailing(cls, noLCGoal)
 							blocked := map[*cfg.Block]bool{}
@@ -452,7 +499,7 @@ func init() {
 							for _, ob := range fc.G.Blocks {
 								for j, on := range ob.Nodes {
 									for _, oc := range callsIn(on, false) {
-										if originOf(Callee(info, oc)) == wlc && len(oc.Args) >= 1 && lc.canon(oc.Args[0]) == child {
+										if dk, isD := disch[originOf(Callee(info, oc))]; isD && originOf(Callee(info, oc)) != nil && dk < len(oc.Args) && lc.canon(oc.Args[dk]) == child {
 											if ob == b {
 												if j <= idx {
 													sameBlock = true
@@ -565,7 +612,7 @@ func init() {
 								continue
 							}
 							child := lc.canon(arg)
-							construct := ord.next(fn.Name() + "(" + types.ExprString(arg) + ")")
+							construct := ord.next(shortName(fn) + "(" + elemShape(info, u.Decl.Body, arg) + ")")
 							// blocks that write the child's trailing comment
 							blocked := map[*cfg.Block]bool{}
 							same := false
@@ -1048,10 +1095,9 @@ func init() {
 						// does the successor block write a newline?
 						writes := false
 						for _, n := range b.Succs[k].Nodes {
-							for _, ce := range callsIn(n, false) {
-								if originOf(Callee(info, ce)) == nl {
-									writes = true
-								}
+							// directly, or through a helper every path of which writes one (breakLineBefore)
+							if c.nodeMust(info, u.Obj.Pkg(), n, func(hinfo *types.Info, m ast.Node) bool { return nodeCalls(hinfo, m, nl) != nil }) {
+								writes = true
 							}
 						}
 						if !writes {
